@@ -176,7 +176,7 @@ def wfJ (N : Num K Rr) [Add K] [Mul K] [Zero K] [Inhabited K] (j : Json) (w : Wf
     | some ij => do
         let out ← arrOf N (← ij.getObjVal? "out")
         let wt ← N.real (← ij.getObjVal? "weight")
-        pure [("insert", match wfInsert N.nsq w.data out wt with | some a => arrJ N a | none => Json.str "ValueError")]
+        pure [("insert", match wfInsert N.one N.nsq w.data out wt with | some a => arrJ N a | none => Json.str "ValueError")]
   pure (okJ (base ++ views ++ ins))
 
 def run (N : Num K Rr) [Inhabited K] [Inhabited Rr] [Add K] [Mul K] [Zero K] (j : Json) : R Json := do
